@@ -1106,6 +1106,11 @@ func (vc *VC) applyContract(st *State, ct *Contract, o *types.Func, sig *types.S
 		t := vc.specBool(st, pre, en.Expr, nil, env)
 		vc.assume(st, t)
 	}
+	for _, gd := range ct.GhostDefs {
+		t := vc.specBool(st, pre, gd.Expr, nil, env)
+		vc.assume(st, t)
+		vc.noteAssumption(fmt.Sprintf("ghost definition at %s: %s", ct.Key, gd.Src))
+	}
 	return out
 }
 
